@@ -154,7 +154,7 @@ CHECKS = {
              "own commitment against the funding output (incl. MuSig2), every second-level timeout/success tx, CSV sweeps "
              "(valid at maturity, rejected one block early with the locktime error), to-remote and direct HTLC spends go "
              "through the script engine; TLC validates the number and identity of resolutions, lock times/sequences/CSV "
-             "values and the claimable value to the satoshi against the model commitment (CloseCheck events).",
+             "values and the claimable value to the satoshi against the model commitment (CloseCheck events). Part (d): the same close checks on the summary a real chainWatcher (stale handle) dispatches for the transaction that would confirm - the watcher picks the commitment and the commit point (CCWatcher; WatcherClassifies model-checked); CCAnchor: the anchor resolution of every commitment that may confirm (own, remote, pending) exists exactly when due, claims its own output and is accepted by the script interpreter.",
         note="fee sufficiency of sweeps, anchors' CPFP and aux leaves are out of scope; balance-output trimming is specified "
              "but not exercised (reserve keeps balances high); witness-type choice replicated from contractcourt's resolvers",
         technique="TLA+ spec + TLC model checking + script-engine validation of every spend, counts/values judged by TLC trace validation",
